@@ -1,5 +1,13 @@
 """Which units / harnesses decide which property, and what each leaves uncovered."""
 PROPS = {
+    "C08": {
+        "units": ["fold"],
+        "scope": [r"^fold/"],
+        "level": "proof",
+        "not_covered": ["the fold call site in Call::compile (argument tupling, args.comp(&fold_body))",
+                        "ast signature checks for the folded function",
+                        "type inference: every postcondition is conditional on the builders returning Ok"],
+    },
     "C11": {
         "units": ["num"],
         "scope": [r"^num/FromStr for U256", r"^num/lemma_", r"^literal/"],
